@@ -5648,6 +5648,14 @@ def desc(expr):
         return 'desc(%s)' % expr
     return expr
 
+def locals_with_cells(locals, cells):
+    if cells:
+        locals = locals.copy()
+        for name, cell in cells.items():
+            try: locals[name] = cell.cell_contents
+            except ValueError: pass  # reported by extract_vars
+    return locals
+
 def extract_vars(code_key, filter_num, extractors, globals, locals, cells=None):
     if cells:
         locals = locals.copy()
@@ -5705,7 +5713,8 @@ def unpickle_query(query_result):
 class Query(object):
     def __init__(query, code_key, tree, globals, locals, cells=None, left_join=False):
         assert isinstance(tree, ast.GeneratorExp)
-        tree, extractors = create_extractors(code_key, tree, globals, locals, special_functions, const_functions)
+        tree, extractors = create_extractors(code_key, tree, globals, locals_with_cells(locals, cells),
+                                             special_functions, const_functions)
         filter_num = 0
         vars, vartypes = extract_vars(code_key, filter_num, extractors, globals, locals, cells)
 
@@ -6103,7 +6112,8 @@ class Query(object):
 
         new_filter_num = query._filter_num + 1
         func_ast, extractors = create_extractors(
-            func_id, func_ast, globals, locals, special_functions, const_functions, argnames or prev_translator.namespace)
+            func_id, func_ast, globals, locals_with_cells(locals, cells), special_functions, const_functions,
+            argnames or prev_translator.namespace)
         if extractors:
             vars, vartypes = extract_vars(func_id, new_filter_num, extractors, globals, locals, cells)
             query._database.provider.normalize_vars(vars, vartypes)
